@@ -77,6 +77,12 @@ def check(rep, an, tier):
         R.rule_rowsep(rep, res, entry)
         if cfg["bs"] == "sym":
             R.rule_stack(rep, res, entry)
+    # an upper bound that is finite for some sources only
+    d0 = {n: AXES[n][0][0] for n in AXES}
+    kw = lsq_inputs(K=d0["K"], baseline=d0["baseline"], W=d0["W"], lb=d0["lb"], ub="mixed", bs=d0["bs"])
+    kw.update(base_kws(model=const("gaussian")))
+    kw["solver_opt"] = opaque("solver_opt")
+    F.mixed_upper_bounds(rep, an.run(f"{LSQ}:lsq_linear", kws=kw, config=cfgname(dict(d0, ub="mixed"))), "lsq_linear[gaussian]")
     # estimator wrapper
     for Kk in (["vec", "mat"] if tier == "quick" else ["vec", "mat", "scalar"]):
         for internal in (False, True):
